@@ -10,12 +10,13 @@ import Bnum.Drive.C11
 import Bnum.Drive.C13
 import Bnum.Drive.C14
 import Bnum.Drive.C15
+import Bnum.Drive.C19
 import Bnum.Drive.C20
 namespace Bnum.Drive.All
 open Bnum.Drive
 def handlers : List Handler :=
   [C01.handle, C02.handle, C03.handle, C05.handle, C06.handle, C07.handle, C10.handle, C11.handle,
-   C14.handle, C15.handle, C20.handle]
+   C14.handle, C15.handle, C19.handle, C20.handle]
 /-- handlers that parse the raw token list themselves (the second token is not a configuration) -/
 def rawHandlers : List (String → List String → Option (String × String)) := [C09.handleRaw, C13.handleRaw]
 end Bnum.Drive.All
